@@ -19,7 +19,7 @@ def run(idx, rep, tier):
     mods = MODS
     buffers.r_compact(idx, rep, modules=mods, floor=3 if mods else 8)
     buffers.r_guardstore(idx, rep, modules=mods, floor=0)      # vacuity is guarded by R-BOUNDEDSTORE's floor: a removed check is a VIOLATION there
-    buffers.r_boundedstore(idx, rep, modules=mods, floor=3)
+    buffers.r_boundedstore(idx, rep, modules=mods, floor=2)
     hydro.r_forcedir(idx, rep)
     hydro.r_polyguard(idx, rep)
     hydro.r_planecross(idx, rep)
